@@ -21,6 +21,7 @@ class MdnsWorld:
         self.sim = sim
         self.answers: dict[str, Any] = {}      # mDNS host name (without .local) -> answer spec
         self.instances: list[FakeZeroconf] = []
+        self.cache: list[Any] = []          # RecordUpdate objects heard so far (python-zeroconf caches whether or not anybody listens)
         self.async_wrappers: list[FakeAsyncZeroconf] = []
         self.requests: list[dict[str, Any]] = []
         self.constructing_supplied = False
@@ -55,6 +56,11 @@ class MdnsWorld:
     def deliver_records(self, records: list[Any]) -> int:
         """Hand a batch of RecordUpdate objects to every registered listener of every open instance (as zeroconf does, from the loop)."""
         n = 0
+        # (python-zeroconf caches what it hears whether or not anybody listens; the cache is what a later listener registered WITH a question is
+        #  served from, synchronously, inside async_add_listener)
+        for ru in records:
+            if not any(c.new == ru.new for c in self.cache):
+                self.cache.append(ru)
         for z in self.instances:
             if z.close_calls:
                 continue
@@ -89,6 +95,16 @@ class FakeZeroconf:
         self.listeners.append(listener)
         self.listener_log.append((self.world.sim.next_seq(), self.world.sim.clock, "add"))
         self.world.ev("listener_add", self.idx)
+        if question is not None:
+            # RecordManager.async_add_listener: with a question, cached records that answer it are handed to the new listener at once
+            qs = list(question) if isinstance(question, (list, tuple)) else [question]
+            hit = [ru for ru in self.world.cache if any(getattr(q, "answered_by", lambda r: False)(ru.new) for q in qs)]
+            if hit:
+                self.world.ev("listener_add_replays_cache", self.idx, len(hit))
+                listener.async_update_records(self, self.world.sim.clock * 1000.0, hit)
+                done = getattr(listener, "async_update_records_complete", None)
+                if done is not None:
+                    done()
 
     def async_remove_listener(self, listener: Any) -> None:
         if self.close_calls:
